@@ -122,6 +122,26 @@ fn path_hex(p: &StdPath) -> String {
 fn s<'a>(v: &'a Value, k: &str) -> &'a str {
     v[k].as_str().unwrap_or("")
 }
+
+/// the "path" of a member; `%XX` stands for the raw byte XX (file names that are not valid UTF-8)
+fn raw_path(v: &Value) -> PathBuf {
+    use std::os::unix::ffi::OsStringExt;
+    let t = s(v, "path").as_bytes();
+    let mut out = vec![];
+    let mut i = 0;
+    while i < t.len() {
+        if t[i] == b'%' && i + 2 < t.len() {
+            if let Ok(b) = u8::from_str_radix(std::str::from_utf8(&t[i + 1..i + 3]).unwrap_or("zz"), 16) {
+                out.push(b);
+                i += 3;
+                continue;
+            }
+        }
+        out.push(t[i]);
+        i += 1;
+    }
+    PathBuf::from(std::ffi::OsString::from_vec(out))
+}
 fn strs(v: &Value, k: &str) -> Vec<String> {
     v[k].as_array().map(|a| a.iter().map(|x| x.as_str().unwrap().to_string()).collect()).unwrap_or_default()
 }
@@ -190,7 +210,7 @@ fn build_case(case: &Value, dir1: &StdPath, dir2: Option<&StdPath>) -> Result<Bu
             None => false,
         };
         let base = if dev2 { dir2.ok_or("no second device")? } else { dir1 };
-        paths.push(base.join(s(m, "path")));
+        paths.push(base.join(raw_path(m)));
     }
     // inodes in creation order; the first member naming an inode creates it, later ones are hard links
     let mut first: Vec<Option<usize>> = vec![None; inodes.len()];
